@@ -70,12 +70,13 @@ BINOPS = ["add", "sub", "mul", "lt", "ge", "eq", "ne", "floordiv", "mod"]
 
 
 class Gen:
-    def __init__(self, rng, depth=0, max_depth=2, allow_flags=True, nparams=None, nsites=None, p_sub=0.2):
+    def __init__(self, rng, depth=0, max_depth=2, allow_flags=True, nparams=None, nsites=None, p_sub=0.2, p_param_ret=0.1):
         self.rng = rng
         self.depth = depth
         self.max_depth = max_depth
         self.allow_flags = allow_flags
         self.p_sub = p_sub
+        self.p_param_ret = p_param_ret
         self.nparams = rng.randint(0, 3) if nparams is None else nparams
         self.nsites = rng.randint(1, 6) if nsites is None else nsites
         self.const_no = 100 * (depth + 1)
@@ -97,8 +98,9 @@ class Gen:
         self.anys = [r_param(p + 1) for p in range(self.nparams)]
         self.sites, self.subs = [], []
         self.flagged = False
-        self.setups = []        # references to results of setup call sites (top level only)
+        self.setups = []        # references to results of the setup call sites of this DAG
         self.flagpool = []      # elements of earlier results that are flag-like: several calls gated by parts of one result
+        self.typed = {"s": [], "t": [], "l": [], "d": []}    # results that are a str / tuple / list / dict for sure
         for _ in range(self.nsites):
             self.add_site()
         ret = self.gen_ret()
@@ -139,7 +141,7 @@ class Gen:
         rng = self.rng
         j = len(self.sites) + 1
         site = {"kind": "call", "fn": "mix", "args": [], "kw": [], "active": r_none(), "unpack": 0, "sub": 0, "setup": False}
-        if self.depth == 0 and rng.random() < 0.12:
+        if rng.random() < (0.12 if self.depth == 0 else 0.08):
             # a setup call site: constants and results of other setup sites only; computed once per DAG object
             site["setup"] = True
             site["args"] = [self.unique_const()] + [rng.choice(self.setups) if self.setups and rng.random() < 0.6 else r_const(rng.choice(INT_VALUES))
@@ -154,6 +156,30 @@ class Gen:
         c = rng.random()
         if c < self.p_sub and self.depth < self.max_depth:
             self.add_sub_site(site, j)
+            return
+        unflagged = flag["c"] == "none"
+        if rng.random() < 0.12:
+            # operators on results that are not numbers: + is concatenation, | merges dicts (neither commutes)
+            kinds = [k for k in "stld" if self.typed[k]]
+            if kinds and rng.random() < 0.7:
+                k = rng.choice(kinds)
+                a = rng.choice(self.typed[k])
+                lit = {"s": ["x", "yz", ""], "t": [(1, 2), (0,), ()], "l": [[0], [1, 2], []], "d": [{"a": 1, "z": 2}, {"b": 0}, {}]}[k]
+                b = rng.choice(self.typed[k]) if rng.random() < 0.3 else r_const(rng.choice(lit))
+                if rng.random() < 0.5:
+                    a, b = b, a          # reflected form: the literal on the left
+                op = "bor" if k == "d" else "add"
+                site["kind"], site["fn"], site["args"] = "op", op, [a, b]
+                site["aug"] = a["c"] != "const" and rng.random() < 0.3
+                self.typed[k].append(r_site(j))
+                self.anys.append(r_site(j))
+            else:
+                site["fn"], site["args"] = "label", [self.unique_const()]
+                site["active"] = flag
+                if unflagged:
+                    self.typed["s"].append(r_site(j))
+                self.anys.append(r_site(j))
+            self.sites.append(site)
             return
         c = rng.random()
         if c < 0.08 and self.allow_flags:
@@ -175,6 +201,8 @@ class Gen:
                 names = rng.sample(["ka", "kb"], rng.randint(1, 2))
                 site["kw"] = [{"name": nm, "ref": self.any_ref()} for nm in sorted(names)]
             self.anys.append(r_site(j))
+            if unflagged:
+                self.typed["t"].append(r_site(j))
             for x in range(1, len(site["args"])):
                 if rng.random() < 0.3:
                     self.anys.append(r_site(j, [key_i(x)]))
@@ -191,6 +219,8 @@ class Gen:
                 self.ints.append(first)
             if not site["unpack"]:
                 self.anys.append(r_site(j))
+                if unflagged:
+                    self.typed["t"] += [r_site(j), r_site(j, [key_i(1)])]
         elif c < 0.55:
             site["fn"] = "mkdict"
             inner = self.int_ref() if rng.random() < 0.5 else self.any_ref()
@@ -198,10 +228,15 @@ class Gen:
             self.anys += [r_site(j), r_site(j, [key_s("a")]), r_site(j, [key_s("b")]), r_site(j, [key_s("b"), key_i(1)])]
             if inner in self.ints or (inner["c"] == "const" and inner["v"]["k"] == "i"):
                 self.ints.append(r_site(j, [key_s("a")]))
+            if unflagged:
+                self.typed["d"].append(r_site(j))
+                self.typed["t"].append(r_site(j, [key_s("b")]))
         elif c < 0.6:
             site["fn"] = "mklist"
             site["args"] = [self.unique_const(), self.any_ref(), self.any_ref()]
             self.anys += [r_site(j), r_site(j, [key_i(0)]), r_site(j, [key_i(2)])]
+            if unflagged:
+                self.typed["l"].append(r_site(j))
         elif c < 0.65:
             site["fn"] = "ident"
             site["args"] = [self.any_ref()]
@@ -257,13 +292,15 @@ class Gen:
             if want_flag and Q["_flagged"]:
                 want_flag = False
         else:
+            # a flagged nested DAG often hands a parameter straight back: deactivated, that output is None as well
+            ppr = 0.4 if want_flag else 0.1
             g = Gen(rng, self.depth + 1, self.max_depth, allow_flags=not want_flag and self.allow_flags,
-                    nparams=rng.randint(0, 3), nsites=rng.randint(1, 4), p_sub=self.p_sub)
+                    nparams=rng.randint(0, 3), nsites=rng.randint(1, 4), p_sub=self.p_sub, p_param_ret=ppr)
             Q = g.gen()
             tries = 0
             while Q["ret"] is None and tries < 20:
                 g = Gen(rng, self.depth + 1, self.max_depth, allow_flags=not want_flag and self.allow_flags,
-                        nparams=rng.randint(0, 3), nsites=rng.randint(1, 4), p_sub=self.p_sub)
+                        nparams=rng.randint(0, 3), nsites=rng.randint(1, 4), p_sub=self.p_sub, p_param_ret=ppr)
                 Q = g.gen()
                 tries += 1
             if Q["ret"] is None:
@@ -304,10 +341,12 @@ class Gen:
 
         def one():
             c = rng.random()
-            if c < 0.8 or self.depth > 0:
+            if c < 0.9 - self.p_param_ret:
                 return rng.choice(site_refs)
             if c < 0.9 and self.nparams:
-                return r_param(rng.randint(1, self.nparams))
+                return r_param(rng.randint(1, self.nparams))     # a parameter handed straight back (also by a nested DAG)
+            if self.depth > 0 and rng.random() < 0.7:
+                return rng.choice(site_refs)                     # (a literal in the return of a nested DAG can not be built: C20 known finding)
             return r_const(rng.choice([0, 5, "k", None]))
         if shape == "none":
             return {"shape": "none", "refs": [], "keys": []}
